@@ -45,7 +45,25 @@ RAW_BYTES = [b'', b'\xef\xbb\xbfabc', b'\xef\xbb\xbf', b'\xff\xfe\xfd', b'\x80ab
 ENCODINGS = ['utf-8', 'UTF-8', 'utf8', 'utf-16', 'utf-32', 'latin-1', 'ascii', 'cp1252',
              'shift_jis', 'Latin-1', 'ASCII']
 ERRORS = ['strict', 'ignore', 'replace']
-NONTEXT = [None, 1, 1.5, [], object, ('a',), {'a': 1}, bytearray(b'abc'), memoryview(b'abc')]
+class BadRepr:
+    """A half-initialised object: repr() and str() fail."""
+    def __repr__(self):
+        raise AttributeError('not initialised')
+
+    __str__ = __repr__
+
+
+class BadReprType(type):
+    def __repr__(cls):
+        raise ZeroDivisionError('metaclass repr')
+
+
+class OddClass(metaclass=BadReprType):
+    pass
+
+
+NONTEXT = [None, 1, 1.5, [], object, ('a',), {'a': 1}, bytearray(b'abc'), memoryview(b'abc'), BadRepr(),
+           OddClass]
 
 
 def ref_decode(b, incoming, errors):
@@ -274,6 +292,11 @@ def check_default_incoming(rep):
                     rep.fail('safe_decode-default-incoming',
                              {'stdin_encoding': enc, 'bytes': b.hex(), 'got': repr(got),
                               'want': repr(want)}, {'default': [enc, b.hex()]})
+                t8 = call(encodeutils.to_utf8, b)
+                if t8[0] != 'ret' or t8[1] is not b:
+                    rep.fail('to_utf8-bytes-depends-on-stdin-encoding',
+                             {'stdin_encoding': enc, 'bytes': b.hex(), 'got': repr(t8)},
+                             {'default': [enc, b.hex()]})
                 got = call(encodeutils.safe_encode, b)
                 if b and eff.lower() != 'utf-8':
                     w = want if want[0] != 'ret' else ('ret', want[1].encode('utf-8'))
@@ -323,10 +346,11 @@ def run(ctx):
                strutils.to_slug):
         for bad in NONTEXT:
             rep.count('evaluations')
-            rep.nontrivial('type/%s/%r' % (fn.__name__, type(bad)))
+            rep.nontrivial('type/%s/%d' % (fn.__name__, NONTEXT.index(bad)))
             got = call(fn, bad)
             if got != ('TypeError',):
-                rep.fail('type-contract:%s' % fn.__name__, {'argument': repr(bad), 'got': repr(got)},
+                rep.fail('type-contract:%s' % fn.__name__, {'argument': 'NONTEXT[%d] (%s)' % (
+                    NONTEXT.index(bad), type(bad).__name__), 'got': repr(got)},
                          {'nontext': [fn.__name__, NONTEXT.index(bad)]})
     check_default_incoming(rep)
     # to_slug over every Unicode scalar value
